@@ -120,7 +120,7 @@ func nativeReplay(repo, workDir string, harnesses []string, ws []*engine.Witness
 	cmd := exec.Command("go", "test", "-tags", "verif verifnative", "-overlay", ovFile, "-run", "^TestVerifReplay$", "-count=1", "-vet=off", "-timeout", "20m", ".")
 	cmd.Dir = repo
 	cmd.Env = append(os.Environ(), "GOFLAGS=-mod=mod", "GOPROXY=off", "GOSUMDB=off", "GOTOOLCHAIN=local",
-		"VERIF_WITNESSES="+wFile, "VERIF_OUTCOMES="+outFile, fmt.Sprintf("VERIF_REPEAT=%d", repeat))
+		"VERIF_VALIDATE_PY="+filepath.Join(vd, "harness", "native", "validate.py"), "VERIF_WITNESSES="+wFile, "VERIF_OUTCOMES="+outFile, fmt.Sprintf("VERIF_REPEAT=%d", repeat))
 	out, runErr := cmd.CombinedOutput()
 	var outs []Outcome
 	b, err := os.ReadFile(outFile)
